@@ -11,7 +11,7 @@ package btccurve
 // multiple of P). The right-hand sides are the textbook chord-and-tangent formulas for y^2 = x^3 + 7
 // in Jacobian coordinates (x = X/Z^2, y = Y/Z^3) with denominators cleared.
 
-//@ props C17
+//@ props C17 C08
 
 //@ spec sq(a mathint) mathint = a*a
 //@ spec cube(a mathint) mathint = a*a*a
